@@ -34,23 +34,89 @@ theorem decode_encode (items : List Bytes) (h : ∀ p ∈ items, p.length ≤ 25
       rw [e, decode_item _ _ _ hp, this]
       simp
 
+/-- one step of the loop, as an equation on the successful outcome -/
+theorem fromKVLoop_cons (v : Bytes) (rest : List Bytes) (even : Bool) (items : List Bytes)
+    (h : fromKVLoop (v :: rest) even = some items) :
+    ∃ v' r, items = v' :: r ∧ fromKVLoop rest (!even) = some r ∧ decodeValue (trimSpaces v) = some v' ∧
+      ¬ (Logrange.Generated.C08.fieldLimitBeforeUnquote && decide (v.length > maxLen)) = true ∧
+      ¬ (Logrange.Generated.C08.fieldLimitAfterUnquote && startsQuoted (trimSpaces v) && decide (v'.length > maxLen)) = true := by
+  simp only [fromKVLoop] at h
+  split at h
+  · simp at h
+  · rename_i h1
+    split at h
+    · simp at h
+    · split at h
+      · simp at h
+      · rename_i v' hd
+        split at h
+        · simp at h
+        · rename_i h2
+          split at h
+          · simp at h
+          · rename_i r hr
+            simp at h; subst h
+            exact ⟨v', r, rfl, hr, hd, h1, h2⟩
+
 theorem fromKVLoop_length (res : List Bytes) (even : Bool) (items : List Bytes)
     (h : fromKVLoop res even = some items) : items.length = res.length := by
   induction res generalizing even items with
   | nil => simp [fromKVLoop] at h; subst h; rfl
   | cons v rest ih =>
-    simp only [fromKVLoop] at h
-    split at h
+    obtain ⟨v', r, he, hr, _, _, _⟩ := fromKVLoop_cons v rest even items h
+    subst he
+    simp [ih _ _ hr]
+
+theorem trimSpaces_length_le (s : Bytes) : (trimSpaces s).length ≤ s.length := by
+  unfold trimSpaces
+  rw [List.length_reverse]
+  refine Nat.le_trans (List.dropWhile_sublist _).length_le ?_
+  rw [List.length_reverse]
+  exact (List.dropWhile_sublist _).length_le
+
+theorem decodeValue_unquoted (v v' : Bytes) (hq : startsQuoted v = false) (h : decodeValue v = some v') : v' = v := by
+  cases v with
+  | nil => simp [decodeValue] at h; exact h
+  | cons c t =>
+    simp [startsQuoted] at hq
+    simp [decodeValue, hq.1, hq.2] at h
+    exact h.symm
+
+/-- with the limit tested on the raw piece and again on the unquoted value, every stored piece fits the limit -/
+theorem fromKVLoop_items_le (hB : Logrange.Generated.C08.fieldLimitBeforeUnquote = true)
+    (hA : Logrange.Generated.C08.fieldLimitAfterUnquote = true) (res : List Bytes) (even : Bool) (items : List Bytes)
+    (h : fromKVLoop res even = some items) : ∀ p ∈ items, p.length ≤ maxLen := by
+  induction res generalizing even items with
+  | nil => simp [fromKVLoop] at h; subst h; simp
+  | cons v rest ih =>
+    obtain ⟨v', r, he, hr, hd, h1, h2⟩ := fromKVLoop_cons v rest even items h
+    subst he
+    intro p hp
+    rcases List.mem_cons.mp hp with rfl | hp
+    · simp [hB] at h1
+      simp [hA] at h2
+      cases hq : startsQuoted (trimSpaces v) with
+      | true => exact h2 hq
+      | false =>
+        rw [decodeValue_unquoted _ _ hq hd]
+        exact Nat.le_trans (trimSpaces_length_le v) h1
+    · exact ih _ _ hr p hp
+
+theorem fromKVItems_items_le (hB : Logrange.Generated.C08.fieldLimitBeforeUnquote = true)
+    (hA : Logrange.Generated.C08.fieldLimitAfterUnquote = true) (t : Bytes) (items : List Bytes)
+    (h : fromKVItems t = some items) : ∀ p ∈ items, p.length ≤ maxLen := by
+  unfold fromKVItems at h
+  split at h
+  · simp at h; subst h; simp
+  · split at h
     · simp at h
     · split at h
-      · simp at h
+      · simp at h; subst h; simp
       · split at h
         · simp at h
         · split at h
           · simp at h
-          · rename_i r hr
-            simp at h; subst h
-            simp [ih _ _ hr]
+          · exact fromKVLoop_items_le hB hA _ _ _ h
 
 theorem fromKVItems_even (t : Bytes) (items : List Bytes) (h : fromKVItems t = some items) :
     items.length % 2 = 0 := by
